@@ -195,7 +195,18 @@ func fromGoD(x stick.Value, depth int) JV {
 		if rv := reflect.ValueOf(x); rv.Kind() == reflect.Ptr && rv.IsNil() {
 			return JV{T: "go", GoT: fmt.Sprintf("nil %T", x)}
 		}
-		in := fromGoD(v.Value(), depth+1)
+		inner, ok := func() (iv stick.Value, ok bool) {
+			defer func() {
+				if recover() != nil {
+					ok = false
+				}
+			}()
+			return v.Value(), true
+		}()
+		if !ok {
+			return JV{T: "go", GoT: fmt.Sprintf("unusable %T", x)} // e.g. a struct embedding a nil SafeValue
+		}
+		in := fromGoD(inner, depth+1)
 		ts := v.SafeFor()
 		sort.Strings(ts)
 		return JV{T: "safe", V: &in, Types: ts}
